@@ -198,6 +198,7 @@ let f _id vs =
       let md = nat_of_int (as_int maxdepth) in
       let fuel = nat_of_int (List.length ats + 3) in
       let recursive = lazy (model_recursive m) in
+      let has_e = lazy (List.exists (fun t -> t.t_ceval = E && valid_for_read m cs t) store) in
       let props = ref [] and knowns = ref [] in
       List.iter (fun mv ->
           match as_list mv with
@@ -230,10 +231,15 @@ let f _id vs =
                     let (_, tr) = check_top m cs store s px md fuel o r in
                     if tr.tr_excl_sub_cycle then Some "excl_sub_cycle"
                     else if tr.tr_swallow then Some "cond_err_swallowed" else None) None atoms in
+            (* a condition that cannot be evaluated: "fails" versus "denies" *)
+            let cond_flip =
+              ((got = 3 && (want = 1 || want = 2)) || (want = 3 && (got = 1 || got = 2)) ||
+               (api >= 2 && api <> 4 && (got = 3 || want = 3))) && Lazy.force has_e in
             if lenient then knowns := ("ctx_lenient_condition " ^ where) :: !knowns
             else if wildcard_lo then knowns := ("lo_wildcard_empty_user_filter " ^ where) :: !knowns
             else if conflict then knowns := ("sorted_dedup_by_object " ^ where) :: !knowns
             else if v2cache then knowns := ("wg_cache_visited " ^ where) :: !knowns
+            else if cond_flip then knowns := ("cond_err_order_dependent " ^ where) :: !knowns
             else (match v1trig with
                 | Some fl -> knowns := (fl ^ " " ^ where) :: !knowns
                 | None -> props := where :: !props)
